@@ -604,7 +604,7 @@ func (c *Ctx) c06MoveOrder() {
 				errs := errResultsOf(d)
 				if len(errs) == 0 || !(onNilSide(errs[0], r) || noErrorPathTo(d, r)) {
 					good = false
-					why = "the removal at " + c.ipos(r) + " can run although " + short(calleeNameOf(d)) + " at " + c.ipos(d) + " failed: the source is deleted without its content having been transferred"
+					why = "the removal at " + c.ipos(r) + " can run although " + short(calleeNameOf(d)) + " at " + c.ipos(d) + " failed: whatever it removes (the source, whose content was not transferred; or the destination as the caller named it, which may be an existing directory with other entries) is lost on a move that reports failure"
 				}
 			}
 		}
